@@ -512,8 +512,12 @@ fn fit_multi<C: Lab>(obs: &mut Obs, tag: &'static str, x: &[Vec<f64>], labels: &
         }
     };
     let classes: Vec<C> = model.classes().to_vec();
-    if !obs.ensure(classes == train, "multi:classes-not-training-classes", || {
-        format!("[{tag}] classes() = {:?}, sorted training classes are {:?}", classes, train)
+    // the statement promises the class SET; the column order is whatever classes() reports (sorted on this tree)
+    let mut rep = classes.clone();
+    rep.sort();
+    obs.class_if(classes == train, "multi_classes_reported_in_sorted_order");
+    if !obs.ensure(rep == train, "multi:classes-not-training-classes", || {
+        format!("[{tag}] classes() = {:?}, training classes are {:?}", classes, train)
     }) {
         return Outcome { verdict: None, lse_defect: false };
     }
@@ -529,7 +533,7 @@ fn fit_multi<C: Lab>(obs: &mut Obs, tag: &'static str, x: &[Vec<f64>], labels: &
             format!("[{tag}] with_intercept(false) but intercept() = {:?}", bv.to_vec())
         });
     }
-    let c: Vec<usize> = labels.iter().map(|l| train.binary_search(l).unwrap_or(0)).collect();
+    let c: Vec<usize> = labels.iter().map(|l| classes.iter().position(|cl| cl == l).unwrap_or(0)).collect();
     let obj = Multi { x, c: &c, p, k, intercept: cfg.intercept, alpha: cfg.alpha };
     let mut theta = vec![0.0; rows * k];
     for j in 0..p {
